@@ -232,25 +232,71 @@ func checkC19(ctx *Ctx) *Result {
 				if rs, isRet := nd.(*ast.ReturnStmt); isRet && modeB && len(rs.Results) == 1 && rs.Results[0] == ast.Expr(c) {
 					ys.Returned = true // `return yield(x)`: the verdict is passed up unchanged
 				}
-				if i == len(b.Nodes)-1 && len(b.Succs) == 2 {
-					if e, isExpr := nd.(ast.Expr); isExpr {
-						neg := false
-						for {
-							switch x := e.(type) {
-							case *ast.ParenExpr:
+				// the verdict as a branch condition: the call itself — possibly
+				// negated or compared with true/false — or a variable it was just
+				// assigned to (`ok := yield(x); if !ok {…}`)
+				strip := func(e ast.Expr) (ast.Expr, bool) {
+					neg := false
+					for {
+						switch x := e.(type) {
+						case *ast.ParenExpr:
+							e = x.X
+							continue
+						case *ast.UnaryExpr:
+							if x.Op == token.NOT {
+								neg = !neg
 								e = x.X
 								continue
-							case *ast.UnaryExpr:
-								if x.Op == token.NOT {
-									neg = !neg
-									e = x.X
-									continue
+							}
+						case *ast.BinaryExpr:
+							if x.Op == token.EQL || x.Op == token.NEQ {
+								lit, other := x.Y, x.X
+								if id, ok := x.X.(*ast.Ident); ok && (id.Name == "true" || id.Name == "false") {
+									lit, other = x.X, x.Y
+								}
+								if id, ok := lit.(*ast.Ident); ok && (id.Name == "true" || id.Name == "false") {
+									if _, isConst := info.Uses[id].(*types.Const); isConst {
+										if (id.Name == "false") != (x.Op == token.NEQ) {
+											neg = !neg
+										}
+										e = other
+										continue
+									}
 								}
 							}
-							break
 						}
-						if e == ast.Expr(c) {
+						break
+					}
+					return e, neg
+				}
+				if len(b.Succs) == 2 && len(b.Nodes) > 0 {
+					if cond, isExpr := b.Nodes[len(b.Nodes)-1].(ast.Expr); isExpr {
+						base, neg := strip(cond)
+						switch {
+						case i == len(b.Nodes)-1 && base == ast.Expr(c):
 							ys.IsCond, ys.Negate = true, neg
+						case i == len(b.Nodes)-2:
+							// nd assigns the call's result to a variable the condition tests
+							var lhs *ast.Ident
+							switch st := nd.(type) {
+							case *ast.AssignStmt:
+								if len(st.Lhs) == 1 && len(st.Rhs) == 1 && st.Rhs[0] == ast.Expr(c) {
+									lhs, _ = st.Lhs[0].(*ast.Ident)
+								}
+							case *ast.ValueSpec:
+								if len(st.Names) == 1 && len(st.Values) == 1 && st.Values[0] == ast.Expr(c) {
+									lhs = st.Names[0]
+								}
+							case *ast.DeclStmt:
+								if gd, ok := st.Decl.(*ast.GenDecl); ok && len(gd.Specs) == 1 {
+									if vs, ok := gd.Specs[0].(*ast.ValueSpec); ok && len(vs.Names) == 1 && len(vs.Values) == 1 && vs.Values[0] == ast.Expr(c) {
+										lhs = vs.Names[0]
+									}
+								}
+							}
+							if id, ok := base.(*ast.Ident); ok && lhs != nil && info.ObjectOf(id) != nil && info.ObjectOf(id) == info.ObjectOf(lhs) {
+								ys.IsCond, ys.Negate = true, neg
+							}
 						}
 					}
 				}
@@ -579,6 +625,54 @@ func checkC19(ctx *Ctx) *Result {
 		stack = append(stack, n)
 		return true
 	})
+	// resolveOnce: a variable that is given its value exactly once (a := e, or
+	// var a T = e) and never assigned again stands for e
+	resolveOnce := func(e ast.Expr) ast.Expr {
+		id, isId := e.(*ast.Ident)
+		if !isId || info.ObjectOf(id) == nil {
+			return e
+		}
+		obj := info.ObjectOf(id)
+		var def ast.Expr
+		n := 0
+		ast.Inspect(lit.Body, func(m ast.Node) bool {
+			switch st := m.(type) {
+			case *ast.AssignStmt:
+				for k, lh := range st.Lhs {
+					if lid, ok := lh.(*ast.Ident); ok && info.ObjectOf(lid) == obj {
+						n++
+						if len(st.Rhs) == len(st.Lhs) {
+							def = st.Rhs[k]
+						}
+					}
+				}
+			case *ast.ValueSpec:
+				for k, nm := range st.Names {
+					if info.ObjectOf(nm) == obj {
+						n++
+						if len(st.Values) == len(st.Names) {
+							def = st.Values[k]
+						}
+					}
+				}
+			case *ast.IncDecStmt:
+				if lid, ok := st.X.(*ast.Ident); ok && info.ObjectOf(lid) == obj {
+					n += 2
+				}
+			case *ast.RangeStmt:
+				for _, kv := range []ast.Expr{st.Key, st.Value} {
+					if lid, ok := kv.(*ast.Ident); ok && info.ObjectOf(lid) == obj {
+						n += 2
+					}
+				}
+			}
+			return true
+		})
+		if n == 1 && def != nil {
+			return def
+		}
+		return e
+	}
 	enclosingRanges := func(n ast.Node) []*ast.RangeStmt {
 		var out []*ast.RangeStmt
 		for q := parents[n]; q != nil; q = parents[q] {
@@ -760,30 +854,13 @@ func checkC19(ctx *Ctx) *Result {
 				ic = nil
 			} else if inner.Key == nil || inner.Value != nil || objOf(inner.Key) != arg {
 				good, detail = false, "the yielded value is not the element produced by the recursive iteration"
-			} else if !isChild(ic.Args[0]) {
+			} else if !isChild(ic.Args[0]) && !isChild(resolveOnce(ic.Args[0])) {
 				good, detail = false, "the recursive call is not applied to the child being visited"
 			}
 			// what is iterated: <alias>.Unwrap(), directly or through a variable
 			// assigned once from it
-			if id, isId := coll.(*ast.Ident); isId && coll != nil {
-				var def ast.Expr
-				nAssign := 0
-				ast.Inspect(lit.Body, func(m ast.Node) bool {
-					if as, ok := m.(*ast.AssignStmt); ok {
-						for k, lh := range as.Lhs {
-							if lid, ok := lh.(*ast.Ident); ok && (info.Defs[lid] == info.ObjectOf(id) || info.Uses[lid] == info.ObjectOf(id)) && info.ObjectOf(id) != nil {
-								nAssign++
-								if len(as.Rhs) == len(as.Lhs) {
-									def = as.Rhs[k]
-								}
-							}
-						}
-					}
-					return true
-				})
-				if nAssign == 1 && def != nil {
-					coll = def
-				}
+			if coll != nil {
+				coll = resolveOnce(coll)
 			}
 			oc, isCall := coll.(*ast.CallExpr)
 			if coll == nil || !isCall {
